@@ -211,10 +211,83 @@ def verify_format_process(run, tier):
     c02._explore(run, tier, sess, thunk, fq, prefix)
 
 
+def an_C14_maps(mod, name, paths, fq):
+    """effect clause of every decoder on the thread->process and process->name tables: the declared records perform exactly
+    their declared update when they are read, every other decoder leaves both tables alone"""
+    from checks import decoder_checks as DCK
+    from contracts.decoders import C14_THREAD_DECLARATIONS, C14_PROCESS_NAMINGS
+    ob = 'C14/process-tables/%s.%s' % (mod, name)
+    bad = None
+    n_ret = 0
+    for s in paths:
+        if s.outcome != 'return':
+            continue
+        n_ret += 1
+        w, p = s.window, s.parser
+        tp, pn = p.fields.get('threads_pids'), p.fields.get('pids_names')
+        wt = list(getattr(tp, 'writes', []) or [])
+        wn = list(getattr(pn, 'writes', []) or [])
+        word = lambda spec: w.tid if spec == 'tid' else z3.Select(w.v[int(spec[1:])], 0)
+        if name in C14_THREAD_DECLARATIONS:
+            kspec, vspec = C14_THREAD_DECLARATIONS[name]
+            if len(wt) != 1 or len(wt[0]) != 2:
+                bad = 'the record declares thread %s -> process %s, but the decoder performs %d updates of the thread table' % (kspec, vspec, len(wt))
+            else:
+                kt, vt = wt[0]
+                if DCK.feasible(list(s.pc) + [z3.Or(kt != word(kspec), vt != word(vspec))]):
+                    bad = 'the thread table is not updated with thread %s -> process %s of the record' % (kspec, vspec)
+            if wn:
+                bad = 'writes the process-name table'
+        elif name in C14_PROCESS_NAMINGS:
+            if wt:
+                bad = 'writes the thread table'
+            if len(wn) > 1:
+                bad = 'more than one update of the process-name table'
+            for wr in wn:
+                if len(wr) != 2 or not any(nm.startswith('p.' + C14_PROCESS_NAMINGS[name]) for nm in DCK.sym_names(wr[0])):
+                    bad = 'the process named is not the one of the preceding data record of the same thread'
+        elif wn:
+            bad = 'not a declaring record, but updates the process-name table'
+        elif wt:
+            # a composite decoder may repeat the declaration of a declaring record nested in its window (PERF_Event decodes
+            # its PERF_THD_Data record again): key and value must be that record's declared words
+            for wr in wt:
+                ok = False
+                if len(wr) == 2:
+                    kt, vt = wr
+                    for dname, (kspec, vspec) in C14_THREAD_DECLARATIONS.items():
+                        if kspec == 'tid':
+                            continue
+                        ks = z3.simplify(kt)
+                        if not (z3.is_app(ks) and ks.decl().kind() == z3.Z3_OP_SELECT and ks.arg(0).eq(w.v[int(kspec[1:])])):
+                            continue
+                        j = ks.arg(1)
+                        codes = p.fields.get('trace_codes')
+                        is_decl = z3.And(z3.Select(codes.dom, z3.Select(w.eid, j)), z3.Select(codes.val, z3.Select(w.eid, j)) == intern_str(dname),
+                                         j >= 0, j < w.length)
+                        if not DCK.feasible(list(s.pc) + [z3.Not(z3.And(is_decl, vt == z3.Select(w.v[int(vspec[1:])], j)))]):
+                            ok = True
+                if not ok:
+                    bad = 'not a declaring record, but updates the thread table with something other than a nested declaring record\'s words'
+    if not n_ret:
+        return []
+    if bad is None:
+        return [DCK.rec(ob, 'proved', 'symbolic execution: table writes on every returning path', 0, fq)]
+    return [DCK.rec(ob, 'refuted', 'symbolic execution', 0, fq, bad,
+                    viol={'request': {'kind': 'process_column_case', 'declaring': name}, 'what': '%s: %s' % (name, bad), 'solver_output': bad})]
+
+
+def verify_process_tables(run, tier):
+    from checks import decoder_checks as DCK
+    DCK.ANALYSES['C14'] = an_C14_maps
+    recs, tabs = DCK.run_pool(run, 'C14')
+    DCK.absorb(run, recs)
+
+
 def run_check(run, tier):
     run.pending_failures = []
     run.trusted += ['pyvc interpreter; token-level text model', 'z3 5.1',
-                    'effect clauses of the table writers: set_thread_map (C02), new-thread / terminate-pid / sampler decoders (path summaries of C07)']
+                    'effect clause of set_thread_map (C02)']
     run.assumptions += ['colouring never changes the text: pygments/termcolor are outside the family - BOUNDED native stand-in (ANSI-stripped coloured output equals the plain one on sampled traces)',
                         '_format_timestamp is an opaque column function of (timestamp, conversion parameters)',
                         'declared pids are non-negative recorded words (the unknown-thread marker -1 cannot collide)']
@@ -237,6 +310,7 @@ def run_check(run, tier):
         return [Obj(cls, {'timestamp': SInt(z3.Int('cs.ts')), 'tid': SInt(z3.Int('cs.tid')), 'frames': PList()})]
     compose_check(run, tier, '_format_callstack', ['show_timestamp', 'show_tid', 'show_process'], cs, True, 'C14/_format_callstack')
     verify_format_process(run, tier)
+    verify_process_tables(run, tier)
     out = native({'kind': 'color_search', 'seed': run.seed, 'budget': 60 if tier == 'quick' else 600}, timeout=600)
     run.bounded.append({'what': 'BOUNDED native stand-in for "colouring never changes the text"', 'lines_tried': out.get('tried'), 'found': bool(out.get('found'))})
     if out.get('found'):
